@@ -2,7 +2,7 @@
    parse_template's hand-over between DebugLexer and _detailed_tag_parser relies on), and its consequence:
    when every quoted block tag closes where stock Django closes it, parse_template = stock. *)
 From Coq Require Import String.
-From DJC Require Import Lib.Base Lexer.Model Lexer.Proofs.
+From DJC Require Import Lib.Base Lexer.Model Lexer.Wf.
 
 Definition tlen (t : tok) : nat := tend t - tstart t.
 Fixpoint consumed (l : list tok) : nat := match l with [] => 0 | t :: r => tlen t + consumed r end.
